@@ -198,3 +198,31 @@ PROP["manifest"]["level_text"] += (
     "refresh_outside_latency_agrees (a refresh of a cache with windows leaves every path outside the latency paths - "
     "every data leaf -, the sync flag and the latest timestamp as Model/Cache.lean's refresh does); the history form "
     "runX_data_agrees is stated as a Prop and proved only without windows (runX_data_agrees_nowin).")
+# round 3 (builder bCX3): two runs that agree on the data leaves keep agreeing (Props/C15Agree.lean)
+PROP["modules"] += ["Gnmi.Props.C15Agree"]
+PROP["theorems"] += ["Gnmi.C15Wire." + t for t in [
+    "refresh_agreeOutside", "updateCore_congr", "gnmiUpdate1_congr", "multiUpdates_congr", "removeCore_congr",
+    "gnmiRemove1_congr", "multiDeletes_congr", "dispatch_congr", "checkTimestamp_congr", "gnmiUpdate_congr",
+    "updateCore_meta_agree", "gnmiUpdate1_metaKey_agree", "genMetaOne_agree", "genLatOne_agree",
+    "generateMetaUpdates_agree", "updateMeta_agree", "updateMetaX_agree", "refresh_agreeData",
+    "gnmiUpdate_metaNoti_agree", "roots_data", "reset_congr", "resetXX_congr", "stepX_agree", "runX_agree",
+    "runX_data_agrees_partial", "histMeta_valid", "histMeta_not_outside", "histMeta_latest_differs",
+    "histMeta_disagrees", "runX_data_agrees_false"]]
+PROP["manifest"]["level_text"] += (
+    " Data agreement of the wired cache (Props/C15Agree.lean): AgreeData (two targets have the same data leaves - keys "
+    "whose first element is not meta, in storage order -, the same latest timestamp and name; sync flag, counters, "
+    "metadata values and meta/ leaves may differ) is preserved by every function of Model/Cache.lean run from two "
+    "related targets on the same input: updateCore_congr / gnmiUpdate1_congr / multiUpdates_congr / dispatch_congr / "
+    "gnmiUpdate_congr (updates stored under data keys: same result class, same returned leaf, same updateTS flag), "
+    "removeCore_congr / gnmiRemove1_congr / multiDeletes_congr (deletes of any shape, wildcards and deletes under meta "
+    "included), updateMeta_agree / updateMetaX_agree / refresh_agreeData (a refresh, with or without latency windows, "
+    "touches no data leaf, latest or name), reset_congr (Reset deletes the same roots), gnmiUpdate_metaNoti_agree "
+    "(Sync / Connect / ConnectError); stepX_agree, runX_agree (one call, a history, on two wired caches with any two "
+    "window configurations); runX_data_agrees_partial (along every history from the empty cache whose client updates "
+    "are not addressed under meta/ - HistOutside -, for any latency windows, every target of the wired run has the data "
+    "leaves and the latest timestamp State.run computes, and the same names are registered). The unrestricted "
+    "Prop runX_data_agrees is false (runX_data_agrees_false; decided witness histMeta_latest_differs: a target that writes "
+    "meta/latency/window/<w>/max itself after a refresh is answered stale with the window and added without, which "
+    "changes updateTS and the latest timestamp), so a restriction on client updates under meta/ is necessary; not "
+    "covered by the restricted theorem: the sync-flag clause (a refresh re-derives Target.sync from the metadata value "
+    "and the meta/sync leaf, which AgreeData does not track).")
